@@ -27,6 +27,8 @@ Section Peg.
   | EOpt (e : expr)
   | ERep (e : expr)
   | ERepTail (e : expr)       (* internal: the repeat(sequence(skip; e)) part of e* *)
+  | ENot (e : expr)           (* !e : negative lookahead, consumes nothing, produces no pair *)
+  | EAnd (e : expr)           (* &e : positive lookahead *)
   | ESkip                     (* internal: the implicit skip *)
   | ESoi
   | EEoi.
@@ -131,6 +133,17 @@ Section Peg.
           | Fail => Ok s pos []
           | r => r
           end
+      | ENot x =>
+          match run f x a s pos with
+          | Fail => Ok s pos []
+          | OutOfFuel => OutOfFuel
+          | Ok _ _ _ => Fail
+          end
+      | EAnd x =>
+          match run f x a s pos with
+          | Ok _ _ _ => Ok s pos []
+          | r => r
+          end
       | ERep x =>
           match run f x a s pos with
           | Fail => Ok s pos []
@@ -167,7 +180,7 @@ End Peg.
 
 Arguments EStr {rname}. Arguments ERange {rname}. Arguments ECall {rname}. Arguments ESeq {rname}.
 Arguments EAlt {rname}. Arguments EOpt {rname}. Arguments ERep {rname}. Arguments ERepTail {rname}.
-Arguments ESkip {rname}. Arguments ESoi {rname}. Arguments EEoi {rname}.
+Arguments ENot {rname}. Arguments EAnd {rname}. Arguments ESkip {rname}. Arguments ESoi {rname}. Arguments EEoi {rname}.
 Arguments Pair {rname}. Arguments Fail {rname}. Arguments OutOfFuel {rname}. Arguments Ok {rname}.
 Arguments run {rname}. Arguments parse_rule {rname}. Arguments g_rule {rname}. Arguments g_ws {rname}.
 Arguments g_eoi {rname}. Arguments Build_peg {rname}.
